@@ -48,6 +48,30 @@ FLAG_SUCCESS, FLAG_FAILURE, FLAG_COMPLETE, FLAG_NOTIFY = 1, 2, 4, 8
 DEFAULT_PRIO = {-2: -7.5, -1: -1, 0: 0, 1: 0.5, 2: 2, 3: 10}
 
 
+class VEvent:
+    """Stand-in for threading.Event in circuits.core.helpers while a manager runs
+    in the checking thread: wait() never blocks; the universe decides what an idle
+    wait means (let the timeout elapse, or stop the manager from a second thread)."""
+    hook = None
+
+    def __init__(self):
+        self._flag = False
+
+    def set(self):
+        self._flag = True
+
+    def clear(self):
+        self._flag = False
+
+    def is_set(self):
+        return self._flag
+
+    def wait(self, timeout=None):
+        if VEvent.hook is not None:
+            VEvent.hook(self, timeout)
+        return self._flag
+
+
 class ScriptError(Exception):
     """Raised by a scripted handler's `raise` op."""
 
@@ -415,7 +439,8 @@ class Universe:
                     kw['timeout'] = susp[2]
                 if susp[0] == 'call':
                     ev2 = self._make_event(spec)
-                    e2 = self._eid(ev2)
+                    e2 = 0           # its id is assigned when call() fires it (first step of the call generator)
+                    awaited = ev2
                     target = self.comps[spec['on']] if spec.get('on') else comp
                     args = [self._chan_obj(spec['ch'])] if spec.get('ch') is not None else []
                     self.log.append(line('yld', e=e, h=hid, f=1, x=e2, n='call', d=kw.get('timeout', -1)))
@@ -427,12 +452,14 @@ class Universe:
                         self.stack.pop()
                 else:
                     # wait by name (string) or on the last event fired by this handler (object)
+                    awaited = None
                     if spec.get('byname'):
                         what = spec['name']
                         e2 = 0
                     else:
                         what = self.last_fired.get((e, hid))
                         e2 = self._eid(what) if what is not None else 0
+                        awaited = what
                         if what is None:
                             what = spec['name']
                     args = [self._chan_obj(spec['ch'])] if spec.get('ch') is not None else []
@@ -452,6 +479,8 @@ class Universe:
                     vid = sum((x if isinstance(x, int) else -1) for x in v) * 1000 + len(v)
                 else:
                     vid = v if isinstance(v, int) else (0 if v is None else -2)
+                if awaited is not None and not isinstance(awaited, str):
+                    e2 = self.eid.get(id(awaited), 0)
                 self.log.append(line('resume', e=e, h=hid, v=vid, f=1 if errs else 0, x=e2))
 
     # -------------------------------------------------------------------- api
@@ -503,6 +532,51 @@ class Universe:
             return
         comp.removeHandler(m)
         self.handlers[hid] = None
+
+    def api_run(self, cid, idle_limit=8):
+        """run() the manager in this thread.  Idle waits are virtual; after
+        `idle_limit` consecutive idle iterations a second thread calls stop()."""
+        import signal
+        import threading
+        import circuits.core.helpers as helpers
+        root = self.comps[cid]
+        self.log.append(line('api', n='run', c=cid))
+        idle = [0]
+        last_len = [len(self.log)]
+
+        def hook(ev, timeout):
+            # anything dispatched to a program handler since the last idle wait resets the count
+            if any(ln['k'] in ('inv', 'step') for ln in self.log[last_len[0]:]):
+                idle[0] = 0
+            last_len[0] = len(self.log)
+            idle[0] += 1
+            self.log.append(line('idle', d=idle[0], x=-1 if timeout is None else int(timeout * 1000) if timeout < 1000 else 999999))
+            if idle[0] >= idle_limit or timeout is None or timeout >= 1000:
+                if root.running:
+                    self.log.append(line('api', n='stop', c=cid, x=1))
+                    t = threading.Thread(target=root.stop)
+                    t.start()
+                    t.join()
+                else:
+                    ev.set()
+        old_event = helpers.Event
+        old_int, old_term = signal.getsignal(signal.SIGINT), signal.getsignal(signal.SIGTERM)
+        helpers.Event = VEvent
+        VEvent.hook = hook
+        code, how = 0, 0
+        try:
+            try:
+                root.run()
+            except SystemExit as exc:
+                how = 1
+                code = exc.code if isinstance(exc.code, int) else (0 if exc.code is None else -2)
+        finally:
+            VEvent.hook = None
+            helpers.Event = old_event
+            signal.signal(signal.SIGINT, old_int)
+            signal.signal(signal.SIGTERM, old_term)
+        self.log.append(line('runret', c=cid, x=how, v=code, d=len(root), f=1 if root.running else 0,
+                             y=0 if root._executing_thread is None else 1))
 
     def api_flush(self, cid):
         self.log.append(line('api', n='flush', c=cid))
@@ -591,6 +665,25 @@ class Universe:
                         self.api_reg(op[1], op[2])
                     elif o == 'unreg':
                         self.api_unreg(op[1])
+                    elif o == 'reg?':
+                        # only within the property's quantifier: c fully detached, no
+                        # unregistration pending, p outside c's subtree
+                        c, p = self.comps[op[1]], self.comps[op[2]]
+                        q, inside, n = p, False, 0
+                        while n <= len(self.comps):
+                            if q is c:
+                                inside = True
+                                break
+                            if q.parent is q:
+                                break
+                            q = q.parent
+                            n += 1
+                        if c.parent is c and not getattr(c, '_unregister_pending', False) and not inside:
+                            self.api_reg(op[1], op[2])
+                    elif o == 'unreg?':
+                        c = self.comps[op[1]]
+                        if c.parent is not c and not getattr(c, '_unregister_pending', False):
+                            self.api_unreg(op[1])
                     elif o == 'addh':
                         self.api_addh(op[1])
                     elif o == 'rmh':
@@ -599,6 +692,8 @@ class Universe:
                         self.api_flush(op[1])
                     elif o == 'tick':
                         self.api_tick(op[1])
+                    elif o == 'run':
+                        self.api_run(op[1], *(op[2:3]))
                     elif o == 'cancel':
                         self.api_cancel(op[1])
                     elif o == 'proj':
